@@ -475,7 +475,7 @@ func c04Rejected(c *Case) {
 
 func c04Cases(tier string) int {
 	if tier == "thorough" {
-		return 1 + 100000 + 500000
+		return 1 + 100000 + 2500000
 	}
 	return 1 + 10000 + 60000
 }
